@@ -429,6 +429,114 @@ def r02_9(chk, P):
 
 
 # ---------------------------------------------------------------------------------------------------------
+
+# registry -> (type table, tables of per-number objects) of one backend family (confirmed by reading codec_internal.h / registry.c:
+# entry k of every table of a family describes floor / residue / mapping number k)
+FAMILIES = {
+    '_floor_P': ('floor_type', {'floor_param', 'flr'}),
+    '_residue_P': ('residue_type', {'residue_param', 'residue'}),
+    '_mapping_P': ('map_type', {'map_param'}),
+}
+
+
+def r02_10(chk, P, rule='R02.10'):
+    chk.rule(rule, 'a backend function is applied to an object of its own kind: wherever a function is taken from a registry '
+             '(_floor_P / _residue_P / _mapping_P) at the type recorded for number k (ci->floor_type[k], ...) and the call passes or '
+             'assigns a per-number object of the same family (ci->floor_param[j], b->flr[j], ci->residue_param[j], b->residue[j], '
+             'ci->map_param[j]), k and j are the same expression (single-assignment locals expanded).  A floor-0 routine run on '
+             'a floor-1 look structure reads and writes through pointers of the wrong layout; only a set-up that mixes backend '
+             'types shows it, and the encoder never produces one')
+    defs_cache = {}
+
+    def canon(F, e, depth=0):
+        e = F.strip_casts(e)
+        nd = F.ex[e]
+        k = nd['k']
+        if k == 'ref' and nd['decl'].get('kind') == 'var' and depth < 4:
+            defs = defs_cache.setdefault(P.key(F), common.single_defs(F))
+            d = defs.get(nd['decl']['id'])
+            if d is not None:
+                return canon(F, d, depth + 1)
+            return f"v{nd['decl']['id']}"
+        if k == 'ref':
+            return f"{nd['decl'].get('kind', '')[:1]}{nd['decl'].get('id', nd['decl'].get('name'))}"
+        if k == 'int':
+            return str(nd['v'])
+        if k == 'member':
+            return canon(F, nd['c'][0], depth) + '.' + nd['field']
+        if k == 'sub':
+            return canon(F, nd['c'][0], depth) + '[' + canon(F, nd['c'][1], depth) + ']'
+        if k in ('bin', 'un'):
+            return nd.get('op', '?') + '(' + ','.join(canon(F, c, depth) for c in nd.get('c', []) if c) + ')'
+        return F.s(e)
+
+    def table_elem(F, e, fields):
+        """e (casts stripped, single-assignment locals expanded) is tab[j] with tab a member named in fields -> (field, j)"""
+        e = F.strip_casts(e)
+        nd = F.ex[e]
+        hops = 0
+        while nd['k'] == 'ref' and nd['decl'].get('kind') == 'var' and hops < 3:
+            defs = defs_cache.setdefault(P.key(F), common.single_defs(F))
+            d = defs.get(nd['decl']['id'])
+            if d is None:
+                return None
+            e = F.strip_casts(d)
+            nd = F.ex[e]
+            hops += 1
+        if nd['k'] != 'sub':
+            return None
+        b = F.ex[F.strip_casts(nd['c'][0])]
+        if b['k'] == 'member' and b['field'] in fields:
+            return (b['field'], nd['c'][1])
+        return None
+
+    n = 0
+    for F in P.functions():
+        for c in F.calls():
+            nd = F.ex[c]
+            if 'slot' not in nd['callee']:
+                continue
+            # the registry element the function pointer is read from
+            reg = None
+            fe = nd.get('fnexpr')
+            roots = [fe] if fe else []
+            if not roots:
+                continue
+            for x in F.walk(roots[0]):
+                xn = F.ex[x]
+                if xn['k'] == 'sub':
+                    b = F.ex[F.strip_casts(xn['c'][0])]
+                    if b['k'] == 'ref' and b['decl'].get('name') in FAMILIES:
+                        reg = (b['decl']['name'], xn['c'][1])
+            if reg is None:
+                continue
+            tfield, ofields = FAMILIES[reg[0]]
+            te = table_elem(F, reg[1], {tfield})
+            if te is None:
+                continue            # a constant or a parameter: nothing to pair here
+            kx = canon(F, te[1])
+            objs = []
+            for a in nd.get('c', []):
+                oe = table_elem(F, a, ofields)
+                if oe is not None:
+                    objs.append(oe)
+            par = F.sparent.get(c)
+            ch = c
+            while par is not None and F.ex[par]['k'] == 'cast':
+                ch, par = par, F.sparent.get(par)
+            if par is not None and F.ex[par]['k'] == 'assign' and F.ex[par]['c'][1] == ch:
+                oe = table_elem(F, F.ex[par]['c'][0], ofields)
+                if oe is not None:
+                    objs.append(oe)
+            for fld, j in objs:
+                jx = canon(F, j)
+                n += 1
+                chk.ob(rule, F.name, f'{reg[0]}.{nd["callee"]["slot"][-1]}:{fld}@{F.loc(c)}', kx == jx, F.where(c),
+                       f'type of number `{F.s(te[1])}`, object number `{F.s(j)}`' if kx == jx else
+                       f'`{F.s(c)[:90]}`: the function is the one registered for number `{F.s(te[1])}` but the {fld} object is number '
+                       f'`{F.s(j)}` -- with a set-up that mixes backend types the routine runs on a structure of another layout')
+    return n
+
 def run(chk, P):
     r02_6(chk, P)
     chk.floor('R02.6', 1)
@@ -437,6 +545,8 @@ def run(chk, P):
     r02_8(chk, P)
     chk.floor('R02.8', 1)
     r02_9(chk, P)
+    r02_10(chk, P)
+    chk.floor('R02.10', 12)
     chk.floor('R02.9', 3)
     D = k4dec.decode_driver(P)
     r02_1(chk, P, D)
